@@ -1609,3 +1609,41 @@ def local_macro_family(seed, n, prefix="lm"):
             p["aldor_args"] = ["-Mno-warnings"]
             out.append(p)
     return out
+
+
+def hold_as_pointer(prog, every=1):
+    """The same abstract program with its local SingleInteger variables (those introduced by a declaration at the head of a
+    body, never targets of a multiple assignment) held as Pointer -- a rendering option (render.py: ptrvars), nothing
+    AldorSem sees."""
+    lets, excl = [], set()
+
+    def walk(x):
+        if isinstance(x, dict):
+            if x.get("e") == "let" and x.get("t") == SI:
+                lets.append(x["x"])
+            if x.get("e") == "masg":
+                excl.update(x["xs"])
+            if x.get("e") in ("lam", "gen"):        # variables captured by closures keep their type (free declarations)
+                def names(y):
+                    if isinstance(y, dict):
+                        if y.get("e") in ("var", "asg") and "x" in y:
+                            excl.add(y["x"])
+                        for v in y.values():
+                            names(v)
+                    elif isinstance(y, list):
+                        for v in y:
+                            names(v)
+                names(x.get("body"))
+            for v in x.values():
+                walk(v)
+        elif isinstance(x, list):
+            for v in x:
+                walk(v)
+    walk(prog.get("funs", []))
+    walk(prog.get("top", []))
+    q = dict(prog)
+    q["id"] = prog["id"] + "_ptr"
+    ro = dict(prog.get("render_opts", {}))
+    ro["ptrvars"] = sorted(v for i, v in enumerate(sorted(set(lets) - excl)) if i % every == 0)
+    q["render_opts"] = ro
+    return q if ro["ptrvars"] else None
